@@ -193,6 +193,7 @@ func realLex(s string) (lr lexRun, panicked any, hung bool) {
 }
 
 var lexSeeds = []string{
+	"k:a or k:b | fields m", "k:a and k:b or t:c | fields m", "k:a or k:b and k:c | fields except m", "(k:a or k:b) | fields m", "not k:a or k:b|fields m",
 	"k:a-b c", "k:a*b c", "k:\"a\"'b' c", "k:a-b-c d and k:e", "t:a_b-c d",
 	`service:"a\"`, `k:'a\'`, `k:"\`, `"`, `'`, "`", `k:"a*`, `k:"a\*`, "k:`a", `k:"a\"b"`, `k:'it\'s'`, `k:"a\"" and k:"b\"`,
 	`k:"\x41\u00e9\U0001F600\101"`, `k:"\777"`, `k:"\q"`, `k:"\U99999999"`, `k:"\ud800"`, `k:"\xff"`, `k:"\x4"`, `k:'\"'`, `k:"\'"`,
